@@ -7,8 +7,8 @@ import coregen
 import vf
 
 
-def tlc_expect(progs, name, timeout=1800):
-    """Evaluate programs with the reference semantics. Returns ({id: case}, TlcResult)."""
+def _tlc_chunk(args):
+    progs, name, timeout = args
     d = vf.workdir("core-" + name)
     path = os.path.join(d, "progs.ndjson")
     with open(path, "w") as f:
@@ -16,11 +16,29 @@ def tlc_expect(progs, name, timeout=1800):
             p.setdefault("hasfwd", False)
             f.write(json.dumps(p) + "\n")
     r = vf.tlc("XrCore", "XrCore.cfg", "core-" + name, workers=1, env={"PROGS": path},
-               timeout=timeout, xmx="6g")
+               timeout=timeout, xmx="4g")
     cases = {c["id"]: c for c in r.cases()}
     if not r.ok or len(cases) != len(progs):
         raise vf.ToolError("XrCore evaluation failed (%d/%d cases):\n%s" %
                            (len(cases), len(progs), r.out[-2500:]))
+    return cases, r
+
+
+def tlc_expect(progs, name, timeout=2400, chunk=250):
+    """Evaluate programs with the reference semantics (several TLC processes over chunks).
+    Returns ({id: case}, TlcResult-like with summed state counts)."""
+    from concurrent.futures import ThreadPoolExecutor
+    chunks = [(progs[i:i + chunk], "%s-%d" % (name, i), timeout) for i in range(0, len(progs), chunk)]
+    if not chunks:
+        chunks = [([], name, timeout)]
+    with ThreadPoolExecutor(max_workers=6) as ex:
+        outs = list(ex.map(_tlc_chunk, chunks))
+    cases = {}
+    for c, _ in outs:
+        cases.update(c)
+    r = outs[0][1]
+    r.generated = sum(o[1].generated for o in outs)
+    r.distinct = sum(o[1].distinct for o in outs)
     return cases, r
 
 
